@@ -15,3 +15,11 @@ with open(inline.BASELINE_FILE, "w") as f:
     for n in names:
         f.write(n + "\n")
 print(len(names), "functions")
+mn, sigs = inline.module_names_and_sigs(repo.modules)
+with open(inline.BASELINE_NAMES_FILE, "w") as f:
+    f.write("# module-level names (N module:NAME) and function signatures (S qualname(params)) of the reference tree; see tools/gen_baseline.py\n")
+    for n in sorted(mn):
+        f.write("N " + n + "\n")
+    for q in sorted(sigs):
+        f.write("S %s(%s)\n" % (q, ",".join(sigs[q])))
+print(len(mn), "module-level names,", len(sigs), "signatures")
